@@ -22,6 +22,17 @@ package formatter
 //@   requires FormatsOK(commodityFormats)
 //@   ensures [nilcase] amount == nil ==> result == ""
 
+// The text of an amount as it is appended to the line: the quantity text q (formatAmountQuantity), with the commodity
+// symbol in front of it - after the sign when the sign was written before the symbol - or behind it after one blank.
+// Stated without reference to how the sign flag is stored: either the symbol leads, or exactly one sign character does.
+//@ func writeAmountWithSign
+//@   props C04 C05 C06
+//@   requires sb != nil && amount != nil && FormatsOK(commodityFormats)
+//@   ensures [C04:appends] hasprefix(*sb, old(*sb)) && len(*sb) >= len(old(*sb)) + len(amount.Commodity.Symbol)
+//@   ensures [C04:keeps_written] forall i int :: {(*sb)[i]} 0 <= i && i < len(old(*sb)) ==> (*sb)[i] == old(*sb)[i]
+//@   ensures [C04:symbol_leads_or_follows_a_sign] amount.Commodity.Position == 0 && len(amount.Commodity.Symbol) > 0 ==> (*sb)[len(old(*sb))] == amount.Commodity.Symbol[0] || (((*sb)[len(old(*sb))] == '-' || (*sb)[len(old(*sb))] == '+') && (*sb)[len(old(*sb)) + 1] == amount.Commodity.Symbol[0] && len(*sb) >= len(old(*sb)) + 1 + len(amount.Commodity.Symbol))
+//@   modifies *sb
+
 // ---- C05: alignment column and well-formed edits; C04: lines that are not postings only lose trailing blanks ----
 
 //@ specdef dispLen(p ast.Posting) int := rcount(p.Account.Name) + ite(p.Virtual == 1 || p.Virtual == 2, 2, 0)
@@ -36,6 +47,8 @@ package formatter
 //@   loop 2 invariant 0 <= i && i < len(transactions) && 0 - 1 <= rangeindex && rangeindex <= len(transactions[i].Postings) - 1 && maxLen >= 0
 //@   loop 2 invariant forall i2 int, j int :: {transactions[i2].Postings[j]} 0 <= i2 && i2 < i && 0 <= j && j < len(transactions[i2].Postings) ==> maxLen >= dispLen(transactions[i2].Postings[j])
 //@   loop 2 invariant forall j int :: {transactions[i].Postings[j]} 0 <= j && j <= rangeindex ==> maxLen >= dispLen(transactions[i].Postings[j])
+//@   loop 1 exhaustive
+//@   loop 2 exhaustive
 
 // The rendered posting line: the configured indent first; when the posting has an amount, at least two blanks separate
 // it from the account (so the amount is read back as an amount), and no padding is ever negative.
@@ -62,6 +75,7 @@ package formatter
 // Decimal places of a display format are counted from the format text: small and non-negative (ParseNumberFormat).
 //@ trusted extractCommodityFormats
 //@   ensures result != nil && fresh(result) && FormatsOK(result)
+//@   loop 1 exhaustive
 
 //@ pred PostingLinesOK(tx) := forall k int :: {tx.Postings[k]} 0 <= k && k < len(tx.Postings) ==> tx.Postings[k].Range.Start.Line >= 1 && tx.Postings[k].Range.Start.Line <= 4294967295
 
